@@ -32,6 +32,26 @@ def run_checks(repo="/repo", workers=10):
                 out[p] = {"exit": r, "rules": rules, "first_report": first}
     return out
 
+def run_matrix(repo):
+    """One process for the whole row: scrapcheck -matrix loads the tree once and evaluates every property."""
+    r, o = sh(f"/verif/bin/scrapcheck -matrix -repo {repo} -verif /verif", timeout=600)
+    if "MATRIX done" not in o:
+        return {"error": "matrix run failed: " + o[-300:]}
+    out = {}
+    for l in o.splitlines():
+        if not l.startswith("MATRIX C"):
+            continue
+        _, p, rest = l.split(" ", 2)
+        if ": violated:" not in rest and ": undecided:" not in rest:
+            continue
+        rule = rest.split("[")[-1].split(" @ ")[0] if "[" in rest else ""
+        e = out.setdefault(p, {"exit": 1, "rules": [], "first_report": rest[:300].replace(repo + "/", "")})
+        if rule and rule not in e["rules"]:
+            e["rules"].append(rule)
+    for e in out.values():
+        e["rules"].sort()
+    return out
+
 def fast_one(seed):
     """--fast: the same matrix cell computed on a scratch worktree of /repo HEAD with the patch applied (several at a time)."""
     d = os.path.join("/verif/seeded", seed)
@@ -42,7 +62,7 @@ def fast_one(seed):
         rc, out = sh(f"cd {wt} && git apply {d}/patch.diff")
         if rc != 0:
             return seed, {"error": "patch does not apply: " + out[-200:]}
-        return seed, run_checks(wt, workers=7)
+        return seed, run_matrix(wt)
     finally:
         sh(f"git -C /repo worktree remove --force {wt}")
 
@@ -52,7 +72,7 @@ def main():
     precomputed = {}
     if fast:
         seeds = [s for s in sorted(os.listdir("/verif/seeded")) if s != "retired" and os.path.isfile(os.path.join("/verif/seeded", s, "patch.diff")) and (not only or s in only)]
-        with concurrent.futures.ThreadPoolExecutor(max_workers=3) as ex:
+        with concurrent.futures.ThreadPoolExecutor(max_workers=8) as ex:
             for seed, res in ex.map(fast_one, seeds):
                 precomputed[seed] = res
                 print(seed, {k: v.get("rules") for k, v in res.items() if isinstance(v, dict)}, flush=True)
